@@ -42,6 +42,7 @@ import (
 	"github.com/tochemey/goakt/v4/internal/internalpb"
 	"github.com/tochemey/goakt/v4/internal/remoteclient"
 	"github.com/tochemey/goakt/v4/internal/types"
+	"github.com/tochemey/goakt/v4/internal/verifhook"
 	"github.com/tochemey/goakt/v4/internal/xsync"
 	"github.com/tochemey/goakt/v4/log"
 	"github.com/tochemey/goakt/v4/passivation"
@@ -223,6 +224,7 @@ func (pid *grainPID) activate(ctx context.Context) (err error) {
 		return gerrors.NewErrGrainActivationFailure(err)
 	}
 
+	verifhook.At("ga.store", pid.identity, 0, 0)
 	pid.activated.Store(true)
 	pid.activatedAt.Store(time.Now().Unix())
 	pid.deactivateAfter.Store(pid.config.deactivateAfter)
@@ -272,6 +274,7 @@ func (pid *grainPID) deactivate(ctx context.Context) (err error) {
 		}
 	}()
 
+	verifhook.At("gd.enter", pid.identity, 0, 0)
 	pid.unregisterPassivation()
 
 	// Stop before OnDeactivate runs: every timer is cancelled, late
@@ -282,6 +285,7 @@ func (pid *grainPID) deactivate(ctx context.Context) (err error) {
 	}
 
 	defer func() {
+		verifhook.At("gd.flag", pid.identity, 0, 0)
 		pid.activated.Store(false)
 		pid.activatedAt.Store(0)
 		pid.latestReceiveTimeNano.Store(0)
@@ -346,6 +350,7 @@ func (pid *grainPID) isActive() bool {
 // onto the ready queue. The losers' messages are still drained because
 // the winner's turn observes them via the FIFO mailbox.
 func (pid *grainPID) receive(grainContext *GrainContext) {
+	verifhook.At("gr.receive", pid.identity, 0, 0)
 	if !pid.isActive() {
 		return
 	}
@@ -372,9 +377,12 @@ func (pid *grainPID) receive(grainContext *GrainContext) {
 // blocking window any one grain can impose on its peers and amortises
 // scheduling cost across a batch of messages.
 func (pid *grainPID) runTurn(w *worker) {
+	verifhook.At("gt.take", pid.identity, 0, 0)
 	if !pid.schedState.TakeForProcessing() {
+		verifhook.At("gt.end", pid.identity, 0, 0)
 		return
 	}
+	verifhook.At("gt.begin", pid.identity, 0, 0)
 
 	budget := w.dispatcher.throughput
 	for range budget {
@@ -386,14 +394,19 @@ func (pid *grainPID) runTurn(w *worker) {
 
 		if grainContext == nil {
 			if pid.finishOrReclaim() {
+				verifhook.At("gt.end", pid.identity, 0, 0)
 				return
 			}
+			verifhook.At("gt.begin", pid.identity, 1, 0)
 			continue
 		}
 		pid.dispatchOne(grainContext)
 	}
+	verifhook.At("gt.release", pid.identity, 1, 0)
 	pid.schedState.YieldToScheduled()
+	verifhook.At("gt.resched", pid.identity, 0, 0)
 	w.reschedule(pid)
+	verifhook.At("gt.end", pid.identity, 0, 0)
 }
 
 // dequeueResponse pops the next async response envelope, or nil when the
@@ -791,6 +804,7 @@ func (pid *grainPID) enqueueInFlightCancellations() {
 // transition, ownership was reclaimed, and the caller must continue
 // draining within the same budget.
 func (pid *grainPID) finishOrReclaim() bool {
+	verifhook.At("gt.release", pid.identity, 0, 0)
 	pid.schedState.reset()
 	if !pid.hasPendingWork() {
 		return true
@@ -1016,6 +1030,8 @@ func (pid *grainPID) passivationLatestActivity() time.Time {
 }
 
 func (pid *grainPID) passivationTry(reason string) bool {
+	verifhook.At("gp.enter", pid.identity, 0, 0)
+	defer verifhook.At("gp.end", pid.identity, 0, 0)
 	if !pid.isActive() || pid.onPoisonPill.Load() {
 		return false
 	}
